@@ -418,6 +418,11 @@ def run(ctx):
     #      every payload value comes from lz4_flex::compress (the decoder decompresses whatever carries the tag)
     payload_matches_tag(ctx, "R-C15.14")
 
+    # ---- R-C15.15 typestate of the writer's scratch buffer: whatever is written to the file or fed to the checksum from
+    #      `self.buf` is exactly ONE freshly encoded record (cleared, then one encode) — stale bytes of the previous
+    #      record (the End marker stays in the buffer) must never be written or hashed again
+    scratch_buffer_typestate(ctx, "R-C15.15")
+
     # ---- borrowed obligations (mechanisms owned by other properties that this property's verdict also rests on)
     # a decoded record comes back into the keyspace whose id it carries (replay looks the keyspace up per record)
     ctx.borrow("C04", ["R-C04.14"], "R-C15.13")
@@ -468,3 +473,66 @@ def payload_matches_tag(ctx, rule):
            "inside the Lz4 arm the payload is lz4_flex::compress(value) on every path (%d payload assignment(s))" % n if ok else
            "inside the Lz4 arm a payload is built that is not the output of lz4_flex::compress (at %s; compress calls: %d): the record carries the Lz4 tag, the decoder decompresses it and fails — taken for a torn tail, the journal is cut there" % (raw[:2], len(comp)),
            fn.loc(lz[0]) if lz else "")
+
+
+def scratch_buffer_typestate(ctx, rule):
+    F = ctx.F
+    W = "journal::writer::Writer::"
+    HELPERS = (W + "write_start", W + "write_end")
+    nsites = 0
+    for fid, fn in sorted(F.fns.items()):
+        if not fid.startswith(W) or fn.kind == "closure":
+            continue
+        og = ctx.og(fn)
+
+        def is_buf(a):
+            t = og.of_operand(a)
+            return A.tstr(t).endswith("P1(self).buf")
+
+        touches = [b for b, t in fn.calls() if any(is_buf(a) for a in t["args"])] + [b for b, t in fn.calls() if A.cname(t) in HELPERS]
+        if not touches:
+            continue
+        entry = "E" if fid in HELPERS else "U"   # the helpers are entered with an empty buffer: every caller is checked below
+        state = {0: entry}
+        work = [0]
+        req = {}   # block -> (what, wanted, seen states)
+        while work:
+            b = work.pop()
+            st = state[b]
+            t = fn.term(b)
+            out = st
+            if t["k"] == "call":
+                n = A.cname(t)
+                bufargs = [i for i, a in enumerate(t["args"]) if is_buf(a)]
+                if n in HELPERS:
+                    req.setdefault(b, ("%s is entered with an empty buffer" % n.rsplit("::", 1)[-1], "E", set()))[2].add(st)
+                    out = "1"
+                elif bufargs:
+                    leaf = n.rsplit("::", 1)[-1]
+                    if leaf == "clear" and "Vec" in n:
+                        out = "E"
+                    elif leaf == "encode_into" or n.endswith("serialize_marker_item"):
+                        out = "1" if st == "E" else "D"
+                    elif leaf in ("write_all", "write", "update"):
+                        req.setdefault(b, ("%s(&self.buf) sees exactly one fresh record" % leaf, "1", set()))[2].add(st)
+                    elif leaf in ("len", "is_empty", "deref", "as_slice", "as_ref", "capacity"):
+                        pass
+                    else:
+                        out = "D"   # an operation on the buffer this rule does not know
+            for s_ in fn.succs(b):
+                if fn.blocks[s_]["cleanup"]:
+                    continue
+                new = out if s_ not in state else (state[s_] if state[s_] == out else "D")
+                if state.get(s_) != new:
+                    state[s_] = new
+                    work.append(s_)
+        for b, (what, want, seen) in sorted(req.items()):
+            # (states are re-read after the fixpoint)
+            cur = state.get(b)
+            nsites += 1
+            ok = cur == want
+            ctx.ob(rule, fn, "%s#bb-order-%d" % (what.split("(")[0].split(" ")[0], sorted(req).index(b) + 1), ok,
+                   what if ok else "%s — but the buffer can hold %s there: bytes of an earlier record are written / hashed again, or a record is lost" % (
+                       what, {"U": "whatever the previous call left in it", "E": "nothing", "D": "more than one record (or stale bytes)", "1": "one record"}[cur]),
+                   fn.loc(b))
+    ctx.floor(rule, "scratch-buffer uses checked", nsites, 14)
